@@ -191,6 +191,27 @@ def build(repo, outdir, stub=(), nohints=()):
         if nm != 'Operation':
             root.append(clone_impl(nm))
     root.append(maxsafe + '\n')
+    # error types used by the lifted closures of number() and range_set() (R11: doc comments and the attributes of the
+    # thiserror / miette derive macros are stripped; only the shape of the types matters to the contracts)
+    err_types_ok = True
+    try:
+        ek = item(LIB, r'^pub enum SemverErrorKind', 'enum SemverErrorKind')
+        ek.text = re.sub(r'/\*\*.*?\*/', '', ek.text, flags=re.S)
+        ek.text = re.sub(r'^\s*#\[(error|diagnostic)\(.*\)\]\s*$\n', '', ek.text, flags=re.M)
+        ek.text = re.sub(r'#\[derive\([^)]*\)\]', '#[derive(Debug, Eq, PartialEq)]', ek.text)
+        ek.rewrites.append('R11 doc comments, #[error]/#[diagnostic] attributes and the Clone/Error/Diagnostic derives stripped')
+        g.rec(ek, 'type SemverErrorKind', 'root', 'type')
+        pe = item(LIB, r'^struct SemverParseError<I>', 'struct SemverParseError')
+        pe.text = pe.text.replace('pub(crate) ', 'pub ')
+        pubify(pe)
+        g.rec(pe, 'type SemverParseError', 'root', 'type')
+        root.append(P('parse_model.rs'))
+        root.append(ek.text)
+        root.append(pe.text)
+    except AnchorLost as e:
+        err_types_ok = False
+        g.lost_items.append(('number_check', str(e)))
+        g.lost_items.append(('range_set_check', str(e)))
 
     # A6: model of the derived Ord on Identifier, generated from the enum text (variant order as declared)
     variants = re.findall(r'^\s*(\w+)\((\w+)\),', ident.verbatim, re.M)
@@ -385,6 +406,61 @@ impl OrdSpecImpl for Version { open spec fn obeys_cmp_spec() -> bool { true } op
         g.pins.append('hyphen::parser: lower = opt(partial_version), upper = partial_version, result Ok(bounds)')
         g.emit('m_desugar', lifted('hyphen_desugar', '(lower: Option<Partial>, upper: Partial) -> (r: Option<BoundSet>)', K.grid_hyphen(), hy, tail='\n bounds'))
     g.unit('hyphen_desugar', u_hyphen)
+
+    # ---------------------------------------------------------------- m_parse: the two pure closures of the text shell
+    def u_number():
+        f = top_fn(LIB, 'number')
+        body = f.verbatim
+        mk = 'Parser::try_map(Parser::take(digit1), |raw| {'
+        i = body.find(mk)
+        if i < 0 or 'let copied = input.clone();' not in body:
+            raise AnchorLost('number(): `Parser::try_map(Parser::take(digit1), |raw| {..})` with `copied = input.clone()`')
+        k = i + len(mk) - 1
+        e = match_brace(body, k)
+        sl = Slice(LIB, f.start + k, f.start + e, 'closure in number()')
+        sl.rewrites.append('R5 closure body lifted into fn number_check(raw, copied)')
+        # pins: every numeric component of a Partial / Version comes out of number()
+        comp = top_fn(RNG, 'component').verbatim
+        if not re.search(r'Parser::map\(number, Some\)', comp):
+            raise AnchorLost('component(): `Parser::map(number, Some)`')
+        pvf = top_fn(RNG, 'partial_version').verbatim
+        if not re.search(r'let major = component\(input\)\?;\s*let minor = opt\(preceded\(literal\("\."\), component\)\)\.parse_next\(input\)\?;\s*let patch = opt\(preceded\(literal\("\."\), component\)\)\.parse_next\(input\)\?;', pvf):
+            raise AnchorLost('partial_version(): major/minor/patch = component')
+        g.pins.append('component() = alt(x_or_asterisk -> None, number -> Some); partial_version() takes major/minor/patch from component()')
+        if 'number_check' in g.stub:
+            g.stubbed.append('number_check')
+            g.rec(sl, 'number_check', 'm_parse', 'closure', dropped='BODY NOT VERIFIED (stubbed as external_body)')
+            g.emit('m_parse', "#[verifier::external_body]\npub fn number_check<'s>(raw: &'s str, copied: &'s str) -> (r: Result<u64, SemverParseError<&'s str>>)\n    ensures r matches Ok(v) ==> v <= MAX_SAFE_INTEGER,\n{ unimplemented!() }\n")
+            return
+        g.rec(sl, 'number_check', 'm_parse', 'closure', dropped='winnow combinator call around the closure (Parser::try_map / take(digit1) / context / parse_next)')
+        g.emit('m_parse', "pub fn number_check<'s>(raw: &'s str, copied: &'s str) -> (r: Result<u64, SemverParseError<&'s str>>)\n    ensures r matches Ok(v) ==> v <= MAX_SAFE_INTEGER,  // @number#max-safe\n" + sl.text + '\n')
+    if err_types_ok:
+        g.unit('number_check', u_number)
+
+    def u_range_set():
+        f = top_fn(RNG, 'range_set')
+        body = f.verbatim
+        mk = 'Parser::try_map(bound_sets, |sets| {'
+        i = body.find(mk)
+        if i < 0:
+            raise AnchorLost('range_set(): `Parser::try_map(bound_sets, |sets| {..})`')
+        k = i + len(mk) - 1
+        e = match_brace(body, k)
+        sl = Slice(RNG, f.start + k, f.start + e, 'closure in range_set()')
+        sl.rewrites.append('R5 closure body lifted into fn range_set_check(sets, input)')
+        if not re.search(r'pub fn parse<S: AsRef<str>>\(input: S\) -> Result<Self, SemverError> \{\s*let mut input = input\.as_ref\(\);\s*match range_set\.parse_next\(&mut input\) \{\s*Ok\(range\) => Ok\(range\),', RNG.text):
+            raise AnchorLost('Range::parse(): `match range_set.parse_next(&mut input) { Ok(range) => Ok(range), ..`')
+        g.pins.append('Range::parse() returns what range_set yields; range_set = Parser::try_map(bound_sets, closure)')
+        sig = "pub fn range_set_check<I>(sets: Vec<BoundSet>, input: I) -> (r: Result<Range, SemverParseError<I>>)\n    ensures (r is Err) <==> sets@.len() == 0, r matches Ok(x) ==> x.0@ == sets@,\n"
+        if 'range_set_check' in g.stub:
+            g.stubbed.append('range_set_check')
+            g.rec(sl, 'range_set_check', 'm_parse', 'closure', dropped='BODY NOT VERIFIED (stubbed as external_body)')
+            g.emit('m_parse', '#[verifier::external_body]\n' + sig + '{ unimplemented!() }\n')
+            return
+        g.rec(sl, 'range_set_check', 'm_parse', 'closure', dropped='winnow combinator call around the closure (Parser::try_map / parse_next)')
+        g.emit('m_parse', sig + sl.text + '\n')
+    if err_types_ok:
+        g.unit('range_set_check', u_range_set)
 
     # ---------------------------------------------------------------- m_props / m_canary
     g.emit('m_props', P('props.rs'))
